@@ -55,7 +55,8 @@ impl StandardLinearModel {
             let mut independent_value = 0.0;
             for (row, constraint) in self.constraints.iter().enumerate() {
                 let coeff = constraint.coefficient(column);
-                if float_ne(coeff, 0.0) {
+                //exact test: a column with a second entry, however small, is not a unit column
+                if coeff != 0.0 {
                     independent_count += 1;
                     independent_row = row;
                     independent_value = constraint.coefficient(column);
